@@ -9,6 +9,7 @@ import (
 	"encoding/json"
 	"fmt"
 	"os"
+	"runtime/debug"
 	"net/http"
 	"sync"
 	"sync/atomic"
@@ -32,7 +33,9 @@ func check(c Case) (class, what string, o obs, err error) {
 	key := envKey{decl: k.decl, mode: k.mode, reg: k.reg, undef: k.undef, az: k.az != azAbsent}
 	e := buildEnv(key, []structure{structureOf(k)})
 	o = runCase(e, 0, k)
-	class, what = judge(k, o)
+	if class = judge(k, o); class != "" {
+		what = explain(k, o)
+	}
 	return class, what, o, nil
 }
 
@@ -249,31 +252,66 @@ func knownClasses() map[string]bool {
 
 // ---- main ----
 
-type tally struct {
-	evals, nontrivial int64
-	outcomes          map[string]int64
-	unowned           int64
+type okey struct {
+	level, none  uint8
+	kind, tag    int8
+	status       int16
+	anonymousRun bool
 }
 
-func label(k kase, o obs) string {
-	pre := lvlName[k.level][:1] + ":"
-	if k.decl == declNone {
+func (l okey) String() string {
+	pre := lvlName[l.level][:1] + ":"
+	if l.none == 1 {
 		pre += "no-requirement:"
 	}
-	switch o.kind {
+	switch l.kind {
 	case obsRun:
-		if o.princ == 0 {
+		if l.anonymousRun {
 			return pre + "run-anonymous"
 		}
 		return pre + "run-principal"
 	case obsRefused:
-		return fmt.Sprintf("%srefused:%s:%d", pre, tagName[o.tag], o.status)
+		return fmt.Sprintf("%srefused:%s:%d", pre, tagName[l.tag], l.status)
 	case obsOther:
-		return fmt.Sprintf("%sother:%d", pre, o.status)
+		return fmt.Sprintf("%sother:%d", pre, l.status)
 	case obsNoAuth:
 		return pre + "no-auth"
 	}
 	return pre + "panic"
+}
+
+func label(k kase, o obs) okey {
+	l := okey{level: k.level, kind: int8(o.kind)}
+	if k.decl == declNone {
+		l.none = 1
+	}
+	switch o.kind {
+	case obsRun:
+		l.anonymousRun = o.princ == 0
+	case obsRefused:
+		l.tag, l.status = int8(o.tag), int16(o.status)
+	case obsOther:
+		l.status = int16(o.status)
+	}
+	return l
+}
+
+// failAgg batches the failing cases of one work item (a broken tree, and the known
+// defects of the pinned one, fail many cases: the report is told once per item).
+type failAgg struct {
+	n        int64
+	examples []failEx
+}
+type failEx struct {
+	k kase
+	o obs
+}
+
+type tally struct {
+	evals, nontrivial int64
+	outcomes          map[okey]int64
+	fails             map[string]*failAgg
+	unowned           int64
 }
 
 func main() {
@@ -297,6 +335,8 @@ func main() {
 		r.Finish("replay of one case", false)
 	}
 
+	// the default of engine/report (2000%) lets the heap grow to gigabytes here: the live heap holds the built APIs
+	debug.SetGCPercent(300)
 	thorough := r.Thorough()
 	plans := plan(thorough)
 	vecs := [2][][nS]uint8{vectors(modeRaw), vectors(modeReal)}
@@ -317,7 +357,7 @@ func main() {
 	var abort atomic.Bool
 	stop := func() bool { return abort.Load() || r.OutOfTime() }
 	var mu sync.Mutex
-	total := tally{outcomes: map[string]int64{}}
+	total := tally{outcomes: map[okey]int64{}}
 	var envsBuilt, ordersRun, structsRun int64
 	axes := map[string]int64{}
 
@@ -347,7 +387,7 @@ func main() {
 			it := items[(ii+rot)%len(items)]
 			p, e := batch[it.e], envs[it.e]
 			st := p.structs[it.op]
-			t := tally{outcomes: map[string]int64{}}
+			t := tally{outcomes: map[okey]int64{}, fails: map[string]*failAgg{}}
 			var nOrders int64
 			for _, ord := range orders(st) {
 				if abort.Load() || (p.key.decl == declNone && nOrders > 0) {
@@ -412,8 +452,16 @@ func main() {
 									t.unowned++
 								}
 								t.outcomes[label(k, o)]++
-								if cl, what := judge(k, o); cl != "" {
-									r.Fail(cl, what, k.toCase())
+								if cl := judge(k, o); cl != "" {
+									fa := t.fails[cl]
+									if fa == nil {
+										fa = &failAgg{}
+										t.fails[cl] = fa
+									}
+									fa.n++
+									if len(fa.examples) < 5 {
+										fa.examples = append(fa.examples, failEx{k, o})
+									}
 									// a broken tree fails millions of cases: stop once that is beyond doubt
 									// (classes of known findings do not count)
 									if !knownClass[cl] && failures.Add(1) > 20000 {
@@ -430,6 +478,17 @@ func main() {
 			}
 			r.Eval(t.evals)
 			r.Nontrivial(t.nontrivial)
+			for cl, fa := range t.fails {
+				whats := make([]string, len(fa.examples))
+				cases := make([]Case, len(fa.examples))
+				for i, ex := range fa.examples {
+					whats[i], cases[i] = explain(ex.k, ex.o), ex.k.toCase()
+				}
+				for i := int64(0); i < fa.n; i++ {
+					x := int(i) % len(cases)
+					r.Fail(cl, whats[x], cases[x])
+				}
+			}
 			mu.Lock()
 			for l, n := range t.outcomes {
 				total.outcomes[l] += n
@@ -444,12 +503,34 @@ func main() {
 		mu.Unlock()
 	}
 	for l, n := range total.outcomes {
-		r.Outcome(l, n)
+		r.Outcome(l.String(), n)
 	}
+	// the sweeps, as run: one line per (declaration, authenticator kind, level, bound, authorizers, rest), with the
+	// number of environments (registered/undefined configuration x authorizer registered or not [x structure, when global])
 	for _, p := range plans {
-		axes["env:"+declName[p.key.decl]+"/"+modeName[p.key.mode]]++
+		for _, j := range p.jobs {
+			var azs, rests []string
+			for _, a := range j.azs {
+				if (a != azAbsent) == p.key.az {
+					azs = append(azs, azName[a])
+				}
+			}
+			if len(azs) == 0 {
+				continue
+			}
+			for _, x := range j.rests {
+				rests = append(rests, restName[x])
+			}
+			nst := 0
+			for _, st := range p.structs {
+				if int(st.n) <= j.maxAlts {
+					nst++
+				}
+			}
+			axes[fmt.Sprintf("declared=%s authenticators=%s level=%s structures-per-environment=%d (lists of <=%d) authorizers=%v rest=%v", declName[p.key.decl], modeName[p.key.mode], lvlName[j.level], nst, j.maxAlts, azs, rests)]++
+		}
 	}
-	r.Set("environments_built_by_declaration_and_authenticator_kind", axes)
+	r.Set("sweeps_environments", axes)
 	r.Set("environments_built", envsBuilt)
 	r.Set("structure_instances_run", structsRun)
 	r.Set("structure_x_order_instances_run", ordersRun)
@@ -473,5 +554,5 @@ func main() {
 	if abort.Load() {
 		r.Set("stopped_early", "more than 20000 failing cases")
 	}
-	r.Finish("every requirement structure (ordered list of 1..3 alternatives over {anonymous, non-empty subsets of 3 schemes}; 1..2 for the sweeps listed in DESIGN/MUTANTS notes) x every evaluation order of every alternative x every per-scheme outcome vector x authorizer kinds x registered/undefined authenticator configurations, at Context.Authorize and through the handler chain (x rest-of-request variants); one evaluation = one Authorize call or one request on the real code compared with the reference; non-trivial = at least one authenticator was consulted; the enumerator never repeats a (environment, structure, order, vector, authorizer, rest, level) tuple", !abort.Load())
+	r.Finish("every requirement structure (ordered list of 1..3 alternatives over {anonymous, non-empty subsets of 3 schemes}; the bound of each sweep is in coverage.sweeps_environments) x every evaluation order of every alternative x every per-scheme outcome vector x authorizer kinds x registered/undefined authenticator configurations, at Context.Authorize and through the handler chain (x rest-of-request variants); one evaluation = one Authorize call or one request on the real code compared with the reference; non-trivial = at least one authenticator was consulted; the enumerator never repeats a (environment, structure, order, vector, authorizer, rest, level) tuple", !abort.Load())
 }
